@@ -331,6 +331,9 @@ func (x *Exec) Build(op Op) *Req {
 	case "DeleteMulti":
 		var sb strings.Builder
 		sb.WriteString("<Delete>")
+		if op.B("quiet") {
+			sb.WriteString("<Quiet>true</Quiet>")
+		}
 		for _, o := range op.List("objs") {
 			oo := Op(o.(map[string]interface{}))
 			sb.WriteString("<Object><Key>")
